@@ -148,6 +148,9 @@ def random_plan(rng: random.Random, job: str, variant: int, n: int, with_console
             else:
                 t = min(float(rng.randint(0, int(max_elapse))), max_elapse)
             c = op("ELAPSE", time=t)
+        if not isinstance(c, ConsoleText) and c.command in ("USE", "CAST", "RESOLVE", "KEYDOWNSTOP") and rng.random() < 0.06:
+            # the legal full form `<COMMAND> "<skill>" <time>`: the time of such an operation is not used by any handler
+            c = op(c.command, c.name, time=rng.choice([200.0, 0.0, 1500.5]))
         cmds.append(c)
         eng.exec(c)
     return cmds[:n]
